@@ -18,6 +18,12 @@ KF(ev) ==
      /\ ev.ty \in {"Binary", "LargeBinary"} /\ ev.opts \in {"Utf8", "LargeUtf8", "Utf8View"}
      /\ Known(ev.k) /\ ("err" \in {memo[ev.k], ev.o})
   THEN "C02-strict-binary-to-utf8-validates-whole-buffer"
+  (* Known finding (same root as C13-dictionary-cast-fails-on-unreferenced-value): a      *)
+  (* strict cast of a dictionary array casts every dictionary value, referenced or not,  *)
+  (* so its success depends on dictionary entries that no row holds                       *)
+  ELSE IF /\ ev.op = "obs" /\ ev.kernel = "cast_strict" /\ ev.fam = "dict"
+          /\ Known(ev.k) /\ ("err" \in {memo[ev.k], ev.o})
+  THEN "C02-strict-dictionary-cast-depends-on-unreferenced-values"
   (* Known finding: `==` on dictionary arrays compares a null KEY and a valid key that  *)
   (* references a null dictionary VALUE as different, although both rows are null        *)
   ELSE IF /\ ev.op = "eq" /\ ev.fam = "dict" /\ ev.kvnull
